@@ -28,14 +28,23 @@ theorem slot_over_limit_given_back {s s' : State} {g v : Nat} (h : step s (.ldCo
 theorem taken_bounds {s : State} (hr : Reach s) (g : Nat) (hp : s.ph g ≠ .idle) : 1 ≤ s.tk g ∧ s.tk g ≤ s.maxConc :=
   Res.taken_bounds hr g hp
 
-/-- the limit itself: withSafeConcurrency with Go's int → uint32 conversion -/
+/-- the limit itself: withSafeConcurrency with Go's int → uint32 conversion (repaired: values that do not
+    fit are clamped). The hypothesis `h` is the side condition the truncating version needed; it is kept in the
+    statement and no longer used -/
 theorem safe_concurrency_positive (cpus : BitVec 32) (c : BitVec 64) (hc : cpus ≠ 0)
-    (h : c.toInt % 2 ^ 32 ≠ 0 ∨ c.toInt < 1) : Config.withSafeConcurrency cpus c ≠ 0 := Config.safe_conc_pos cpus c hc h
+    (_h : c.toInt % 2 ^ 32 ≠ 0 ∨ c.toInt < 1) : Config.withSafeConcurrency cpus c ≠ 0 :=
+  Config.safe_conc_never_zero cpus c hc
 
-/-- known finding KF-C02-uint32-wrap: positive multiples of 2^32 become limit 0 -/
-theorem safe_concurrency_zero_iff (cpus : BitVec 32) (c : BitVec 64) (hc : cpus ≠ 0) :
-    Config.withSafeConcurrency cpus c = 0 ↔ (1 ≤ c.toInt ∧ c.toInt % 2 ^ 32 = 0) := Config.safe_conc_zero_iff cpus c hc
+/-- repaired (was the finding KF-C02-uint32-wrap, positive multiples of 2^32 became limit 0): with at least one
+    CPU the limit is never 0, whatever `int` is passed -/
+theorem safe_concurrency_never_zero (cpus : BitVec 32) (c : BitVec 64) (hc : cpus ≠ 0) :
+    Config.withSafeConcurrency cpus c ≠ 0 := Config.safe_conc_never_zero cpus c hc
 
+/-- repaired: values that do not fit are clamped to math.MaxUint32, not truncated -/
+theorem safe_concurrency_clamped (cpus : BitVec 32) (c : BitVec 64) (h : 2 ^ 32 ≤ c.toInt) :
+    Config.withSafeConcurrency cpus c = 0xFFFFFFFF#32 := Config.safe_conc_clamp cpus c h
+
+/-- in the range of a uint32 the limit is the value that was asked for -/
 theorem safe_concurrency_id (cpus : BitVec 32) (c : BitVec 64) (h1 : 1 ≤ c.toInt) (h2 : c.toInt < 2 ^ 32) :
     (Config.withSafeConcurrency cpus c).toNat = c.toInt.toNat := Config.safe_conc_id cpus c h1 h2
 
